@@ -150,6 +150,9 @@ def case_pct(ctx, inp):
     a = np.array([float(v) for v in inp["data"]])
     if inp.get("int"):
         a = a.astype(np.int64)
+    if inp.get("dtype"):
+        a = a.astype(inp["dtype"])
+        ctx.branch("dtype=" + inp["dtype"])
     chunks = tuple(inp["chunks"])
     method = inp["method"]
     fq = [Fraction(q) for q in inp["q"]]
@@ -319,8 +322,11 @@ def gen_pct(ctx, n):
             data, is_int = [rng.choice([0.5, 1.25, -2.0, 7.75, 3.0, 3.0, rng.randint(-5, 5) / 4]) for _ in range(ln)], False
         else:
             data, is_int = [rng.choice([float("inf"), float("-inf"), 1.0, 2.0, 0.0]) for _ in range(ln)], False
-        yield "pct", {"data": [str(v) if isinstance(v, float) and v in (float("inf"), float("-inf")) else v for v in data],
-                      "int": is_int, "chunks": list(chunks), "q": _s(sorted(_rand_q(rng))), "method": method}
+        inp = {"data": [str(v) if isinstance(v, float) and v in (float("inf"), float("-inf")) else v for v in data],
+               "int": is_int, "chunks": list(chunks), "q": _s(sorted(_rand_q(rng))), "method": method}
+        if rng.random() < 0.2:
+            inp["dtype"] = rng.choice(["int32", "uint8", "int16"]) if is_int else "float32"
+        yield "pct", inp
 
 
 def gen_exhaustive(ctx):
